@@ -49,6 +49,25 @@ func c02Scenarios(tier string) []*Scenario {
 					add(tr, "cancel", rpc)
 				}
 			}
+			// the same failures with response metadata around them: trailers (and headers) set before or after
+			// the responses put more frames between the last response and the status
+			if ret == "ret:st:5" || (tier == "thorough" && ret == "ret:plain") {
+				for _, rpc := range rpcs {
+					h := rpc.Handler
+					if len(h) < 2 {
+						continue
+					}
+					for _, deco := range [][]string{
+						cat(h[:len(h)-1], []string{"t:b"}, h[len(h)-1:]),
+						cat(h[:1], []string{"h:a"}, h[1:len(h)-1], []string{"t:b"}, h[len(h)-1:]),
+						cat(h[:1], []string{"t:b"}, h[1:]),
+					} {
+						r2 := rpc
+						r2.Handler = deco
+						add(tr, "", r2)
+					}
+				}
+			}
 		}
 	}
 	// Header() asked for by another goroutine while the receive is under way: the failure still reaches the receiver
